@@ -208,7 +208,7 @@ def check(tier):
         }
         vlib.write_evidence(PROP, tier, cov, time.time() - t0, len(own), [
             "Go-source-level observation model: compiler-introduced branches, variable-latency multipliers and caches are outside the property as stated",
-            "the assembly is opaque to the instrumenter; it is covered by the Asm machine (spec/Asm.tla): the extracted routines contain no jump, every memory operand is argument pointer + constant (checked while TLC executes them), and there is no division",
+            "the assembly is opaque to the instrumenter; it is covered by the Asm machine (spec/Asm.tla: the extracted routines contain no jump, every memory operand is argument pointer + constant, no division) and by instruction counts of the real routines under callgrind for pairs of secret operand classes (amd64 only: the arm64 file cannot run here)",
             "declassified: the uninitialised-Point guard's short-circuit; exempt: VarTime operations, Scalar.SetCanonicalBytes, accept/reject outcomes of setters",
             "TLC, SANY; golang.org/x/tools/go/packages for the typed AST"])
         if own:
